@@ -100,6 +100,63 @@ def _tuplify(x):
     return x
 
 
+# ------------------------------------------------------------ spatial fanout + loop_bounds
+
+FAN_WORKLOADS = {"MM1-444": S.MM1(4, 4, 4), "MM1-842": S.MM1(8, 4, 2), "MM2-4422": S.MM2(4, 4, 2, 2)}
+# (yaml expression, set of rank variables or None = resolved per Einsum, operator, value)
+LOOP_BOUNDS = {
+    "none": [],
+    "not-m==1": [("~m", "NOT:m", "==", 1)],
+    "all-product<=4": [("{ALLV}", "ALL", "product<=", 4)],
+    "all-product<4": [("{ALLV}", "ALL", "product<", 4)],
+    "all-product>2": [("{ALLV}", "ALL", "product>", 2)],
+    "all-product<8-and-m>1": [("{ALLV}", "ALL", "product<", 8), ("m", "ONLY:m", ">", 1)],
+}
+
+
+def fan_arch(fanout, lb_key, glb_frac, wl):
+    allv = "{" + ", ".join(v for v, _ in wl.bounds) + "}"
+    lbs = ", ".join('{expression: "%s", operator: "%s", value: %d}' % (y.replace("{ALLV}", allv), op, v)
+                    for y, _, op, v in LOOP_BOUNDS[lb_key])
+    cont = ("  - !Container\n    name: MACArray\n    spatial:\n    - name: X\n      fanout: %d\n" % fanout) + \
+        (("      loop_bounds: [%s]\n" % lbs) if lbs else "")
+    size = FAM.sized(wl, glb_frac)
+    return S.Arch(nodes=(S.Mem("Main", S.INF, 10, 10, keep="~Intermediates", may_keep="All"),
+                         S.Mem("Buf", size, 1, 1, keep="All", may_keep=None),
+                         cont.rstrip("\n"), S.Comp("MAC", 1, 1)))
+
+
+def body_fan(cfg):
+    wid, fanout, lb_key, metric = cfg
+    wl = FAN_WORKLOADS[wid]
+    arch = fan_arch(fanout, lb_key, 0.8, wl)
+    res = FAM.run_mapper(f"FAN|{wid}|{fanout}|{lb_key}", metric, (), arch=arch, wl=wl)
+    sample = {"phase": "fanout", "workload": wid, "fanout": fanout, "loop_bounds": lb_key, "metric": metric,
+              "rows": len(res["rows"]), "error": res["error"]}
+    bad, nontriv = [], False
+    for r in res["rows"]:
+        nodes = _tuplify(r["nodes"])
+        lbs = [("MACArray", "X", sel, op, v) for y, sel, op, v in LOOP_BOUNDS[lb_key]]
+        probs = V.validate(nodes, arch, wl, fanouts={("MACArray", "X"): fanout}, loop_bounds=lbs)
+        if probs:
+            bad.append({"tree": r["tree"], "problems": sorted(set(probs))[:4]})
+        if any(n[0] == "P" for p in V.paths(nodes) for n in p):
+            nontriv = True
+    viol = None
+    if bad:
+        first = bad[0]["problems"][0]
+        fam = "invalid-mapping/" + ("loop_bounds" if "loop_bounds" in first else "fanout" if "fanout" in first else "structure")
+        viol = {"observed": bad[:3], "expected": "every returned mapping satisfies fanout and loop_bounds", "family": fam,
+                "config": sample}
+    return Result(outcome=(wid, fanout, lb_key, metric, len(res["rows"])), nontrivial=nontriv, violation=viol,
+                  evaluations=max(1, len(res["rows"])), sample=sample)
+
+
+def _single(wl, e):
+    """The workload restricted to one Einsum (for validating one root-to-compute path)."""
+    return S.WL(einsums=tuple(x for x in wl.einsums if x[0] == e), bounds=wl.bounds, bits=wl.bits)
+
+
 def tree_of(ctx):
     q = ctx.quick
     sids = (["MM1-422/tight", "MM1-622/tight", "MV1-42/tight", "MV2-222/tight", "MV2-424/mid", "MM2-2222/tight",
@@ -125,9 +182,23 @@ def run(ctx):
     tree, sids, metrics = tree_of(ctx)
     ctx.explore("returned-mappings", tree, body, shard_depth=4, distinct_by_construction=True)
     ctx.bound(specs=sids, metrics=metrics, keep_variants=list(KEEP_VARIANTS), max_fused_loops=["inf", 1, 0])
+    wids = ["MM1-444", "MM2-4422"] if ctx.quick else list(FAN_WORKLOADS)
+    fans = [4, 16] if ctx.quick else [2, 4, 16]
+    fmetrics = ["L", "E"] if ctx.quick else ["E", "L", "EL"]
+    ctx.explore("fanout-loop-bounds", S_product(wids, fans, list(LOOP_BOUNDS), fmetrics), body_fan, shard_depth=4,
+                distinct_by_construction=True)
+    ctx.bound(fanout_workloads=wids, fanouts=fans, loop_bounds=list(LOOP_BOUNDS), fanout_metrics=fmetrics)
+
+
+def S_product(*levels):
+    from mc.explorer import product_tree
+    return product_tree(*levels)
 
 
 def replay(ctx, rec):
     c = rec["config"]
+    if c.get("phase") == "fanout":
+        r = body_fan((c["workload"], c["fanout"], c["loop_bounds"], c["metric"]))
+        return {"observed": r.violation and r.violation["observed"], "violation": bool(r.violation)}
     r = body((c["spec"], c["keep"], c["metric"], c["max_fused_loops"]))
     return {"observed": r.violation and r.violation["observed"], "violation": bool(r.violation)}
